@@ -187,10 +187,12 @@ class DateS(Shape):
 
 class Opaque(Shape):
     """An opaque identity (row, context, type object ...)."""
-    def __init__(self, tag='o', n=3):
-        self.tag, self.n = tag, n
+    def __init__(self, tag='o', n=3, natives=None):
+        self.tag, self.n, self.natives = tag, n, natives
 
     def enum(self, budget=3):
+        if self.natives is not None:
+            return list(self.natives)
         return [Tok(self.tag, k) for k in range(self.n)]
 
 
